@@ -41,6 +41,7 @@ fn main() {
         "C09" => props::c09::run(&env),
         "C10" => props::c10::run(&env),
         "C11" => props::c11::run(&env),
+        "C12" => props::c12::run(&env),
         "C13" => props::c13::run(&env),
         "C16" => props::c16::run(&env),
         "C20" => props::c20::run(&env),
